@@ -167,15 +167,21 @@ for _s, _k in KINDS + [("null", "Null")]:
           assumes=ATT + (["C06/semilegal/%s/%s" % (_k, _c)] if _k != "Null" else []), tier=KTIER(_k))
         K("C05/hash-step/%s/%s" % (_k, _c), ["C05", "C02"], MB + "c05_hash_%s_%s" % (_s, _c), ["moves::base::do_make_move", "zobrist::pieces", "zobrist::castling", "zobrist::enpassant", "zobrist::castling_delta"],
           "for all boards as above with hash == from-scratch hash: after make of any pseudo-legal move of kind %s (side %s) the stored hash == from-scratch hash of the new raw position" % (_k, _c),
-          assumes=["C05/scratch/zobrist-hash"], tier=KTIER(_k))
+          assumes=["C05/scratch/zobrist-hash", "C05/scratch/ref-hash"], tier=KTIER(_k))
 K("C05/keys/single-feature", ["C05", "C19"], "zobrist::verif_kani::c05_keys_single_feature_differences", ["zobrist::pieces", "zobrist::castling", "zobrist::enpassant", "zobrist::MOVE_SIDE"],
   "tables of this build: empty-cell key is 0; keys of two different cells on one square differ; side key != 0; toggling one castling right changes the castling key; en-passant keys are non-zero and pairwise different; every index in range")
 K("C05/keys/castling-delta", ["C05"], "zobrist::verif_kani::c05_castling_delta_keys", ["zobrist::castling_delta"],
   "both colours: the precombined castling delta == XOR of the king and rook keys on their old and new squares")
 
 BD = "board::verif_kani::"
-K("C05/scratch/zobrist-hash", ["C05", "C19"], BD + "c05_zobrist_hash_is_ref_hash", ["RawBoard::zobrist_hash"],
-  "for all raw boards (13^64 placements, side, rights, mark): zobrist_hash == side key ^ mark key ^ rights key ^ XOR of piece keys of the occupied squares; the result does not depend on either counter", timeout=1800, mem_gb=32, mem_est=14)
+K("C05/scratch/zobrist-hash", ["C05", "C19"], "board::verif_kani_b::c05_zobrist_hash_is_the_definition", ["RawBoard::zobrist_hash"],
+  "for all raw boards (13^64 placements, side, rights, mark, counters): zobrist_hash == side key ^ mark key ^ rights key ^ XOR of piece keys of the occupied squares, over the key tables of this build; neither counter enters",
+  assumes=["C05/keys/tables-read"], timeout=2400, mem_gb=32, mem_est=12)
+K("C05/scratch/ref-hash", ["C05"], "board::verif_kani_b::c05_ref_hash_is_the_definition", [],
+  "harness-side helper: anyboard::ref_hash (the 'from-scratch hash' of the step obligations) is the same fold over the key tables, so C05/hash-step/* speak about RawBoard::zobrist_hash",
+  assumes=["C05/keys/tables-read"], timeout=2400, mem_gb=32, mem_est=12)
+K("C05/keys/tables-read", ["C05", "C19"], "zobrist::verif_kani_b::c05_key_functions_read_the_tables", ["zobrist::pieces", "zobrist::enpassant", "zobrist::castling"],
+  "for all cells, squares and rights sets: the key functions return the corresponding table entries (index in bounds)")
 K("C07/insufficient", ["C07"], BD + "c07_insufficient_material", ["Board::is_insufficient_material"],
   "for all well-formed boards: is_insufficient_material == (besides kings: nothing, or a single knight, or only bishops all on one square colour), counted over the squares",
   assumes=["C20/consts/lines-colours"])
